@@ -109,7 +109,7 @@ def reportStr (r : Report) : String :=
   s!" human={hexRunes (humanTail r.human)} hdr={r.origHdr}"
 
 def genErrStr : GenErr → String
-  | .mtaMissing => "mtaMissing" | .mtaConv => "mtaConv" | .rcvdConv => "rcvdConv"
+  | .mtaMissing => "mtaMissing" | .mtaConv => "mtaConv"
   | .senderConv => "senderConv" | .rcptMissing => "rcptMissing" | .rcptConv => "rcptConv"
   | .actionMissing => "actionMissing" | .statusMissing => "statusMissing"
   | .remoteConv => "remoteConv" | .panic => "panic"
